@@ -10,8 +10,12 @@ kind 'exc' (exceptions of other classes: ValueError of a closed stream, YAMLErro
 and at each of the four steps of a file save, and DATA that makes the write fail: values the safe YAML dumper
 cannot represent (decimal.Decimal, Fraction, complex, arbitrary objects ...: kind 'norepr') and values that cannot
 even be deep-copied (locks, generators: kind 'nocopy') handed to save_all.
-Part 2 (MachineVars.tla): real MachineVariables on booted machines; a reboot passes the persisted data through
-the real YAML writer and loader and boots a new machine with the wall clock moved on.
+Part 2 (MachineVars.tla): real MachineVariables on booted machines (machines/c15_mv); a reboot passes the persisted
+data through the real YAML writer and loader and boots a new machine with the wall clock moved on.  Variables created
+by code at run time (persist / expiry policies) and variables DECLARED IN THE CONFIG (machine_vars: section with
+initial_value, value_type, persist - explicit or by default), set to falsy values (0, 0.0, -0.0, False, '') and others,
+over several boots in a row; observed after every boot: existence, value (as id of the value table), persist flag, and
+what the data file holds.  MV_DEVS: named deviations of the code as it is, as in part 1.
 """
 import builtins
 import copy as _copy
@@ -929,18 +933,92 @@ def trace_round(ctx, wd, nm, with_handmade, n_design, n_dev, depth):
 
 # ============================================================================================ machine variables
 MV_VALUES = [5, 0, -3, 'abc', '', 'yes', [1, 'a'], {'k': [1, 2]}, 2.5, True, 10 ** 12, 'üñ x: y', 17.25, 'null']
+MV_MACHINE = 'c15_mv'
+# Variables DECLARED IN THE CONFIG (machine_vars: section of machines/c15_mv/config/config.yaml; master_volume comes from
+# mpf/mpfconfig.yaml): persist flag and initial value as configured (after conversion to value_type), then the values
+# code sets them to: the FALSY values (value id 2) and other values (ids 3..6).  Within one table all values are
+# pairwise unequal (0 == 0.0 == False in Python: one of them per execution, picked by the salt).
+MV_DECLARED = {
+    'master_volume': {'persist': True, 'init': 0.5, 'falsy': [0.0, 0, False, -0.0], 'other': [0.8, 1.0, 0.25, 17.25, 1e-7, 3]},
+    'cv_int': {'persist': True, 'init': 4, 'falsy': [0, False, 0.0], 'other': [17, -3, 10 ** 12, 250, 7, 2.5]},
+    'cv_str': {'persist': True, 'pdefault': True, 'init': '5', 'falsy': [''], 'other': ['hello', '0', 'üñ x: y', 'null', 'False', 'no']},
+    'cv_zero': {'persist': True, 'init': 0, 'falsy': [], 'other': [7, -1, 12, 10 ** 12, 3, True]},
+    'cv_flt': {'persist': True, 'init': 0.0, 'falsy': [], 'other': [0.5, -2.5, 1.0, 1e300, 3, 0.001]},
+    'cv_np': {'persist': False, 'init': 3, 'falsy': [0, False], 'other': [17, -3, 10 ** 12, 250, 7, 2.5]},
+    'cv_npf': {'persist': False, 'init': 0.25, 'falsy': [0.0, 0], 'other': [0.8, 1.0, 0.5, 17.25, 1e-7, 3]},
+}
+MV_MAXID = 6
+
+
+def _pe(persist, expire):
+    """Policy of a variable that code creates at run time."""
+    return {'persist': persist, 'expire': expire, 'declared': False, 'init': 0, 'pdefault': False}
+
+
+def _decl(name):
+    """Policy of a variable the config declares: value id 1 is its initial value."""
+    return {'persist': MV_DECLARED[name]['persist'], 'expire': 0, 'declared': True, 'init': 1,
+            'pdefault': bool(MV_DECLARED[name].get('pdefault'))}
+
+
 MV_POLICIES = [
-    {'pa': {'persist': True, 'expire': 0}, 'ex': {'persist': True, 'expire': 2}, 'np': {'persist': False, 'expire': 0}},
-    {'pa': {'persist': True, 'expire': 3}, 'ex': {'persist': True, 'expire': 1}, 'np': {'persist': False, 'expire': 2}},
+    {'pa': _pe(True, 0), 'ex': _pe(True, 2), 'np': _pe(False, 0), 'master_volume': _decl('master_volume')},
+    {'pa': _pe(True, 3), 'ex': _pe(True, 1), 'np': _pe(False, 2), 'cv_int': _decl('cv_int'), 'cv_np': _decl('cv_np')},
+    {'master_volume': _decl('master_volume'), 'cv_str': _decl('cv_str'), 'cv_zero': _decl('cv_zero'), 'cv_np': _decl('cv_np')},
+    {'pa': _pe(True, 0), 'cv_int': _decl('cv_int'), 'cv_flt': _decl('cv_flt'), 'cv_npf': _decl('cv_npf')},
 ]
+# the exhaustive check of the model: small policies (names there are only names)
+MV_MC_POLICIES = [
+    {'pa': _pe(True, 0), 'ex': _pe(True, 2), 'np': _pe(False, 0)},
+    {'pa': _pe(True, 3), 'ex': _pe(True, 1), 'np': _pe(False, 2)},
+    {'ex': _pe(True, 2), 'cv': {'persist': True, 'expire': 0, 'declared': True, 'init': 1, 'pdefault': False},
+     'cn': {'persist': False, 'expire': 0, 'declared': True, 'init': 1, 'pdefault': False}},
+]
+# persistent by default (no `persist:` in the config), next to a variable created by code
+MV_MC_PDEFAULT = [{'pa': _pe(True, 0), 'cd': {'persist': True, 'expire': 0, 'declared': True, 'init': 1, 'pdefault': True}}]
+MV_DEVS = ['DefaultPersistLostOnReload']
+MV_WHAT = {
+    'DefaultPersistLostOnReload':
+        'MachineVariables._load_initial_machine_vars (mpf/core/machine_vars.py) ends with `self.configure_machine_var('
+        "name=name, persist=element.get('persist', False))`; `element` is the validated config (persist defaults to true) "
+        'only when the variable was NOT loaded from disk, otherwise it is the raw config element. A variable declared in '
+        'machine_vars: without an explicit `persist:` (documented default: true) is persistent on the first boot, but on '
+        'every boot that loads it from the file its persist flag is set to False: later values are not saved any more and '
+        'the next write of any other persistent variable drops it from the file, so it does not reload with an equal '
+        'value on the next boot although it is marked persistent',
+}
 MV_UNIT = 10     # seconds per abstract time unit; expiry is 10*E + 5 s so that no comparison is at a boundary
 _MV = {}
 
 
+def mv_value(n, vid, salt):
+    """The real value that value id `vid` of variable n stands for in an execution with this salt."""
+    d = MV_DECLARED.get(n)
+    if d is None:
+        return _copy.deepcopy(MV_VALUES[(vid + salt) % len(MV_VALUES)])
+    assert 1 <= vid <= MV_MAXID
+    if vid == 1:
+        return d['init']
+    if vid == 2 and d['falsy']:
+        return d['falsy'][salt % len(d['falsy'])]
+    return d['other'][(salt + vid - 2) % len(d['other'])]
+
+
+def mv_id(n, value, salt):
+    """Translate a real value back to its id (-1: none of the values of this execution).  Equality is Python's ==."""
+    for vid in range(1 if n in MV_DECLARED else 0, MV_MAXID + 1):
+        try:
+            if mv_value(n, vid, salt) == value:
+                return vid
+        except Exception:  # pylint: disable=broad-except
+            pass
+    return -1
+
+
 def _boot_at(start, mock):
-    """Boot the base machine with the wall clock at `start` seconds and the given persisted machine_vars."""
+    """Boot the machine with the wall clock at `start` seconds and the given persisted machine_vars."""
     h = harness._H()
-    h._machine_dir = os.path.join(harness.VERIF, 'machines', 'base')
+    h._machine_dir = os.path.join(harness.VERIF, 'machines', MV_MACHINE)
     h._config_file = 'config.yaml'
     h._platform = 'virtual'
     h._mock_data_v = {'machine_vars': mock}
@@ -971,6 +1049,18 @@ def run_mv_job(job):
         return {'cfg': job['cfg'], 'ev': [{'op': 'harness-crash', 'what': repr(ex)[:300]}], '_tb': traceback.format_exc()[-2000:]}
 
 
+def _mv_file(pol, data, salt):
+    """The variables of the policy as the data file holds them: present / value id (and the real values, for reports)."""
+    out, real = {}, {}
+    for n in pol:
+        e = data.get(n) if isinstance(data, dict) else None
+        ok = isinstance(e, dict) and 'value' in e
+        out[n] = {'present': ok, 'v': mv_id(n, e['value'], salt) if ok else 0}
+        if ok:
+            real[n] = repr(e['value'])
+    return out, real
+
+
 def _run_mv(job):
     pol = job['cfg']
     salt = job['salt']
@@ -980,21 +1070,30 @@ def _run_mv(job):
     wall = 0.0
     store = {}
     h = _boot_at(wall, store)
-    last = {}
     ev = []
+
+    def onfile():
+        w = h.machine.variables.machine_var_data_manager.written_data
+        return _mv_file(pol, store if w is None else w, salt)
     try:
+        for n, p in pol.items():        # the config of the machine is the one the policy describes
+            raw = h.machine.config['machine_vars'].get(n, {}) if p['declared'] else {}
+            if p['declared'] and not (raw.get('persist', True) == p['persist'] and ('persist' not in raw) == p['pdefault']
+                                      and h.machine.variables.is_machine_var(n)):
+                raise AssertionError('machine config and policy disagree about %s' % n)
         for s in job['sched']:
             op = s['op']
             mvs = h.machine.variables
             if op == 'set':
                 n, p = s['n'], pol[s['n']]
-                val = _copy.deepcopy(MV_VALUES[(s['v'] + salt) % len(MV_VALUES)])
-                mvs.configure_machine_var(name=n, persist=p['persist'],
-                                          expire_secs=(p['expire'] * MV_UNIT + 5) if p['expire'] else None)
+                val = mv_value(n, s['v'], salt)
+                if not p['declared']:
+                    mvs.configure_machine_var(name=n, persist=p['persist'],
+                                              expire_secs=(p['expire'] * MV_UNIT + 5) if p['expire'] else None)
                 mvs.set_machine_var(name=n, value=val)
-                last[n] = _copy.deepcopy(val)
                 h.advance_time_and_run(0)
-                ev.append({'op': 'set', 'n': n, 'v': s['v']})
+                f, fr = onfile()
+                ev.append({'op': 'set', 'n': n, 'v': s['v'], 'file': f, '_val': repr(val), '_file': fr})
             elif op == 'adv':
                 h.advance_time_and_run(s['d'] * MV_UNIT)
                 ev.append({'op': 'adv', 'd': s['d']})
@@ -1008,22 +1107,28 @@ def _run_mv(job):
                 store = _yaml_roundtrip(path, store)
                 h = _boot_at(wall, store)
                 mvs = h.machine.variables
-                obs = {}
+                obs, real = {}, {}
                 for n, p in pol.items():
                     present = bool(mvs.is_machine_var(n))
-                    obs[n] = {'present': present,
-                              'eq': bool(present and n in last and mvs.get_machine_var(n) == last[n]
-                                         and mvs.machine_vars[n]['persist'])}
-                ev.append({'op': 'reboot', 'down': s['down'], 'obs': obs})
+                    got = mvs.get_machine_var(n) if present else None
+                    obs[n] = {'present': present, 'v': mv_id(n, got, salt) if present else 0,
+                              'pers': bool(present and mvs.machine_vars[n]['persist'])}
+                    if present:
+                        real[n] = repr(got)
+                f, fr = onfile()
+                ev.append({'op': 'reboot', 'down': s['down'], 'obs': obs, 'file': f, '_vals': real, '_file': fr,
+                           '_was_on_disk': {n: repr(e.get('value')) for n, e in store.items()
+                                            if n in pol and isinstance(e, dict)}})
     finally:
         if h is not None:
             harness.shutdown(h)
-    return {'cfg': pol, 'ev': ev}
+    return {'cfg': pol, 'ev': ev, '_salt': salt}
 
 
 MV_CFG = """SPECIFICATION Spec
 CONSTANTS
   Configs <- MCConfigs
+  Deviations = {%s}
   Vals = {%s}
   Advs = {1, 2}
   Downs = {0, 1, 2, 4}
@@ -1031,50 +1136,150 @@ CONSTANTS
   MaxOps = %d
 %sCHECK_DEADLOCK FALSE
 """
+MV_TRACE_CFG = ('SPECIFICATION TSpec\nCONSTANTS\n  Configs <- TConfigs\n  Deviations = {%s}\n  Vals = {}\n  Advs = {}\n'
+                '  Downs = {}\n  MaxTime = 100000000\n  MaxOps = 100000000\nINVARIANT Reporter\n%sCHECK_DEADLOCK FALSE\n')
+MV_MONITORS = 'INVARIANT StoreInSync\nINVARIANT DeclaredExists\nINVARIANT MarkedPersistent\n'
+
+
+def mv_handmade():
+    """(policy, schedule, salts): reboots in a row after persistent / declared variables were set."""
+    P0, P1, P2, P3 = MV_POLICIES
+    S = lambda n, v: {'op': 'set', 'n': n, 'v': v}
+    RB = lambda d: {'op': 'reboot', 'down': d}
+    AD = lambda d: {'op': 'adv', 'd': d}
+    every = range(len(MV_VALUES))
+    hs = [(P0, [S('pa', 1), S('ex', 2), S('np', 3), RB(0), RB(1), S('ex', 2), AD(2), RB(0), AD(1), RB(4)], every),
+          (P0, [S('ex', 1), AD(2), S('ex', 1), AD(1), RB(1), S('ex', 1), RB(2), RB(4)], every),
+          (P0, [S('pa', 4), S('pa', 4), S('pa', 5), AD(2), S('ex', 1), RB(4), S('pa', 5), S('ex', 3), RB(2)], every)]
+    # declared variables: a falsy value (id 2) persisted and several boots in a row; never set by code; set back to the
+    # initial value (id 1); non-persisted ones; together with variables created by code
+    few = range(6)
+    hs += [(P0, [S('master_volume', 2), RB(0), RB(1), S('pa', 1), RB(0), RB(4)], few),
+           (P0, [RB(0), S('pa', 1), RB(1), S('master_volume', 3), RB(0), S('master_volume', 2), RB(0),
+                 S('master_volume', 1), RB(0), RB(1)], few),
+           (P2, [S('cv_str', 2), S('cv_zero', 2), S('cv_np', 2), RB(0), RB(0), S('master_volume', 2), RB(1), RB(0)], few),
+           (P2, [S('cv_zero', 3), RB(0), S('cv_zero', 1), RB(0), S('cv_np', 4), RB(1), S('cv_str', 3), S('cv_str', 2),
+                 RB(0), RB(0)], few),
+           (P3, [S('cv_int', 2), S('cv_flt', 2), S('cv_npf', 2), RB(0), RB(1), S('pa', 2), RB(0), RB(2)], few),
+           (P3, [S('cv_int', 3), RB(0), S('cv_int', 2), RB(0), RB(0), S('cv_int', 1), RB(0), S('cv_flt', 3),
+                 S('cv_flt', 1), RB(0), RB(0)], few),
+           (P1, [S('cv_int', 2), S('ex', 1), AD(2), RB(0), S('cv_np', 2), RB(1), S('cv_int', 2), RB(0), RB(0)], few)]
+    return hs
+
+
+def mv_story(tr, upto):
+    """The execution in real values, for the report."""
+    out = []
+    for e in tr['ev'][:upto]:
+        if e['op'] == 'set':
+            out.append('set %s=%s (id %s; file now %s)' % (e['n'], e.get('_val'), e['v'], e.get('_file')))
+        elif e['op'] == 'adv':
+            out.append('adv %s' % e['d'])
+        elif e['op'] == 'reboot':
+            out.append('REBOOT(down %s; file fed to the boot %s) -> variables %s, file now %s' % (
+                e['down'], e.get('_was_on_disk'), e.get('_vals'), e.get('_file')))
+        else:
+            out.append(str(e))
+    return '; '.join(out)
 
 
 def run_machinevars(ctx):
     q = ctx.quick
     wd = tlc.prepare(ctx.scratch, 'DataManager', 'machinevars')
-    with open(wd + '/MachineVarsMC.tla', 'w') as f:
-        f.write('---- MODULE MachineVarsMC ----\nEXTENDS MachineVars\nMCConfigs == {%s}\n====\n' % ',\n  '.join(
-            to_tla(p) for p in MV_POLICIES))
-    b = {'MaxTime': 8 if q else 10, 'MaxOps': 6 if q else 7, 'Vals': 2, 'policies': len(MV_POLICIES)}
+    for table in MV_DECLARED.values():      # value tables: pairwise unequal values, falsy ones are falsy
+        vals = [table['init']] + table['falsy'][:1] + table['other']
+        assert all(a != b for i, a in enumerate(vals) for b in vals[i + 1:]) and not any(table['falsy']), table
+        assert all(x != y for x in table['falsy'] for y in [table['init']] + table['other']), table
+
+    def mc_module(pols):
+        with open(wd + '/MachineVarsMC.tla', 'w') as f:
+            f.write('---- MODULE MachineVarsMC ----\nEXTENDS MachineVars\nMCConfigs == {%s}\n====\n' % ',\n  '.join(
+                to_tla(p) for p in pols))
+    mc_module(MV_MC_POLICIES + MV_MC_PDEFAULT)
+    b = {'MaxTime': 8 if q else 10, 'MaxOps': 6 if q else 7, 'Vals': 2, 'policies': len(MV_MC_POLICIES) + 1}
+    props = ('INVARIANT StoreInSync\nINVARIANT DeclaredExists\nINVARIANT MarkedPersistent\nPROPERTY PersistReload\n'
+             'PROPERTY DeclaredRestart\n')
     with open(wd + '/MVMC.cfg', 'w') as f:
-        f.write(MV_CFG % ('1, 2', b['MaxTime'], b['MaxOps'], 'INVARIANT StoreInSync\nPROPERTY PersistReload\n'))
+        f.write(MV_CFG % ('', '1, 2', b['MaxTime'], b['MaxOps'], props))
     r = tlc.expect_ok(tlc.check(wd, 'MachineVarsMC', 'MVMC.cfg', timeout=3000), 'MachineVars design check')
     ctx.add_tlc('MachineVars', r, b)
-    ctx.coverage['monitors'] += ['PersistReload', 'StoreInSync']
+    ctx.coverage['monitors'] += ['PersistReload', 'DeclaredRestart', 'DeclaredExists', 'MarkedPersistent', 'StoreInSync']
+    # the named deviation is a behaviour that breaks the statement: alone it must be caught by TLC
+    mc_module(MV_MC_PDEFAULT)
+    for d in MV_DEVS:
+        with open(wd + '/MVDev.cfg', 'w') as f:
+            f.write(MV_CFG % ('"%s"' % d, '1, 2', 4, 4, 'PROPERTY PersistReload\n'))
+        r = tlc.check(wd, 'MachineVarsMC', 'MVDev.cfg', timeout=3000)
+        if not r.violated and re.search(r'[Pp]ropert\w+ .*violated', r.out):
+            r.violated = 'PersistReload'
+        if r.violated != 'PersistReload':
+            raise tlc.TLCError('deviation %s: expected TLC to report PersistReload, got %s\n%s' % (d, r.violated, r.out[-1500:]))
+        ctx.add_tlc('MachineVars with Deviations={%s}: PersistReload violated (as intended)' % d, r)
+    mc_module(MV_POLICIES)
     with open(wd + '/MVGen.cfg', 'w') as f:
-        f.write(MV_CFG % ('1, 2, 3, 4, 5', 40, 14, ''))
-    behs, _ = tlc.simulate(wd, 'MachineVarsMC', 'MVGen.cfg', num=120 if q else 1500, depth=15, seed=ctx.seed)
+        f.write(MV_CFG % ('', '1, 2, 3, 4, 5', 40, 14, ''))
+    behs, _ = tlc.simulate(wd, 'MachineVarsMC', 'MVGen.cfg', num=160 if q else 1800, depth=15, seed=ctx.seed)
     rnd = random.Random(ctx.seed + 7)
     jobs = [{'cfg': bh[0]['cfg'], 'sched': [s['act'] for s in bh if s['act']['op'] != 'init'], 'salt': rnd.randrange(100),
-             'scratch': ctx.scratch} for bh in behs]
-    P = MV_POLICIES[0]
-    S = lambda n, v: {'op': 'set', 'n': n, 'v': v}
-    RB = lambda d: {'op': 'reboot', 'down': d}
-    AD = lambda d: {'op': 'adv', 'd': d}
-    for sched in ([S('pa', 1), S('ex', 2), S('np', 3), RB(0), RB(1), S('ex', 2), AD(2), RB(0), AD(1), RB(4)],
-                  [S('ex', 1), AD(2), S('ex', 1), AD(1), RB(1), S('ex', 1), RB(2), RB(4)],
-                  [S('pa', 4), S('pa', 4), S('pa', 5), AD(2), S('ex', 1), RB(4), S('pa', 5), S('ex', 3), RB(2)]):
-        for salt in range(len(MV_VALUES)):
-            jobs.append({'cfg': P, 'sched': sched, 'salt': salt, 'scratch': ctx.scratch})
+             'scratch': ctx.scratch, 'label': 'simulated'} for bh in behs]
+    for k, (pol, sched, salts) in enumerate(mv_handmade()):
+        for salt in salts:
+            jobs.append({'cfg': pol, 'sched': sched, 'salt': salt, 'scratch': ctx.scratch, 'label': 'handmade-%d' % k})
     traces = harness.pmap(run_mv_job, jobs, chunk=4)
     with open(wd + '/MVTrace.cfg', 'w') as f:
-        f.write('SPECIFICATION TSpec\nCONSTANTS\n  Configs <- TConfigs\n  Vals = {}\n  Advs = {}\n  Downs = {}\n'
-                '  MaxTime = 100000000\n  MaxOps = 100000000\nINVARIANT Reporter\nINVARIANT StoreInSync\nCHECK_DEADLOCK FALSE\n')
-    v = tlc.validate_traces(wd, 'MachineVarsTrace', 'MVTrace.cfg', traces)
-    tlc.finish_diagnosis(wd, 'MachineVarsTrace', 'MVTrace.cfg', traces, v)
+        f.write(MV_TRACE_CFG % ('', MV_MONITORS))
+    with open(wd + '/MVTraceDev.cfg', 'w') as f:
+        f.write(MV_TRACE_CFG % (', '.join('"%s"' % d for d in MV_DEVS), ''))
+    v = tlc.validate_traces(wd, 'MachineVarsTrace', 'MVTrace.cfg', traces, diagnose=False)
     ctx.add_trace_verdict('MachineVarsTrace', v, len(traces))
     ctx.sample({'kind': 'machine-vars-trace', 'cfg': traces[-1]['cfg'], 'trace': traces[-1]['ev'][:10]})
-    for i, info in sorted(v.rejected.items()):
+    cov = ctx.coverage
+    sets = [(e['n'], e['_val']) for t in traces for e in t['ev'] if e['op'] == 'set']
+    cov['machine_vars'] = {
+        'reboots': sum(1 for t in traces for e in t['ev'] if e['op'] == 'reboot'),
+        'values_set_on_declared_vars': sorted({'%s=%s' % nv for nv in sets if nv[0] in MV_DECLARED}),
+        'declared_vars_reloaded_from_file': sorted({'%s=%s' % (n, x) for t in traces for e in t['ev'] if e['op'] == 'reboot'
+                                                    for n, x in e['_was_on_disk'].items() if n in MV_DECLARED})}
+    rej = sorted(v.rejected, key=lambda i: (len(traces[i]['ev']), i))       # the simplest executions first
+    if not rej:
+        return
+    # second pass: which of the rejected executions does the model with the named deviation(s) explain exactly?
+    sub = [traces[i] for i in rej]
+    v2 = tlc.validate_traces(wd, 'MachineVarsTrace', 'MVTraceDev.cfg', sub, diagnose=False)
+    ctx.add_trace_verdict('MachineVarsTrace(all deviations): rejected traces', v2, len(sub))
+    explained = [rej[k] for k in sorted(v2.accepted)]
+    cov['machine_vars']['rejected_by_design_explained_by'] = {'+'.join(MV_DEVS): len(explained)}
+    if explained:
+        i = explained[0]
+        v1 = tlc.validate_traces(wd, 'MachineVarsTrace', 'MVTrace.cfg', [traces[i]])       # where the design rejects it
+        info = v1.rejected.get(0, {})
+        for d in MV_DEVS:
+            ctx.violation('C15:PersistReload:%s' % d,
+                          '%s. %d executions are rejected by the MachineVars spec and explained by the spec with this '
+                          'deviation; the simplest (schedule "%s", rejected at line %s): %s' % (
+                              MV_WHAT[d], len(explained), jobs[i]['label'], info.get('line'),
+                              mv_story(traces[i], None)[:2500]),
+                          {'mv_job': _pub(jobs[i]), 'trace': traces[i], 'info': info, 'needs': [d]})
+    rest = [i for i in rej if i not in set(explained)]
+    if not rest:
+        return
+    sub = [traces[i] for i in rest]
+    v3 = tlc.validate_traces(wd, 'MachineVarsTrace', 'MVTrace.cfg', sub)
+    tlc.finish_diagnosis(wd, 'MachineVarsTrace', 'MVTrace.cfg', sub, v3)
+    for k, i in enumerate(rest):
+        info = v3.rejected.get(k) or {}
         if info.get('line') is None:
             continue
         fe = info.get('failing_event') or {}
+        pub = {k2: x for k2, x in fe.items() if not k2.startswith('_')}
         ctx.violation('C15:PersistReload:%s' % fe.get('op', '?'),
-                      'machine variables: execution not explained by MachineVars spec at line %s: %s (previous %s; '
-                      'policy %s; tb %s)' % (info.get('line'), fe, info.get('prev_event'), traces[i]['cfg'], traces[i].get('_tb')),
+                      'machine variables: the execution is not a behaviour of the MachineVars spec (a persisted value '
+                      'reloads with an equal value on the next boot and the file keeps it, whatever the value; the '
+                      'configured initial_value of a declared variable is used only when nothing was persisted; not '
+                      'explained by a recorded deviation either) at line %s, in real values: %s. The rejected line: %s '
+                      '(schedule "%s", policy %s; tb %s)' % (
+                          info.get('line'), mv_story(traces[i], info.get('line'))[:2500], pub, jobs[i]['label'],
+                          traces[i]['cfg'], traces[i].get('_tb')),
                       {'mv_job': _pub(jobs[i]), 'trace': traces[i], 'info': info})
 
 
@@ -1091,9 +1296,13 @@ def run(ctx):
         'copy.deepcopy cannot copy handed to save_all; BaseExceptions that are not Exceptions are not injected',
         'two threads are never let into ruamel dump() at the same time (it can crash the interpreter); two writers '
         'inside FileManager.save are reported from the trace before that point',
-        'machine variables: every name has a fixed persist/expire policy applied by configure_machine_var() before '
-        'each set_machine_var(), as all callers in mpf do; the persisted data passes through the real YAML '
-        'writer/loader between boots, the TestDataManager stands in for the writer thread there',
+        'machine variables: every name has a fixed persist/expire policy; variables created by code get it from '
+        'configure_machine_var() before each set_machine_var(), as all callers in mpf do; variables declared in the '
+        'machine_vars: section of the config (master_volume of mpfconfig.yaml, int/float/str ones of machines/c15_mv, '
+        'persist true and false, truthy and falsy initial values) are set with a bare set_machine_var(), also to falsy '
+        'values (0, 0.0, -0.0, False, empty string) and back to their initial value; the config is the same for all boots '
+        'of one execution; the persisted data passes through the real YAML writer/loader between boots, the '
+        'TestDataManager stands in for the writer thread there; values are compared with Python ==',
     ]
 
 
@@ -1105,8 +1314,7 @@ def replay(ctx, data):
         print('replay trace:', tr['ev'])
         wd = tlc.prepare(ctx.scratch, 'DataManager', 'machinevars')
         with open(wd + '/MVTrace.cfg', 'w') as f:
-            f.write('SPECIFICATION TSpec\nCONSTANTS\n  Configs <- TConfigs\n  Vals = {}\n  Advs = {}\n  Downs = {}\n'
-                    '  MaxTime = 100000000\n  MaxOps = 100000000\nINVARIANT Reporter\nCHECK_DEADLOCK FALSE\n')
+            f.write(MV_TRACE_CFG % ('', MV_MONITORS))
         v = tlc.validate_traces(wd, 'MachineVarsTrace', 'MVTrace.cfg', [tr])
         for i, info in v.rejected.items():
             ctx.violation(data['sig'], 'replayed: %s' % info, d)
